@@ -268,8 +268,11 @@ def canon(st):
     mm = st.srv.mman
     model = sorted(((k, round(now - m["first"], 6) if now - m["first"] <= LIFETIME + 1 else "expired", m["ack"], min(m["epoch"], 3))
                     for k, m in st.model.items()), key=repr)
-    recent = sorted((r.sockaddr[:2], mid, None if v is None else (int(v.mtype), int(v.code), v.mid))
-                    for (r, mid), v in mm._recent_messages.items())
+    rm = mm._recent_messages
+    try:
+        recent = sorted((r.sockaddr[:2], mid, None if v is None else (int(v.mtype), int(v.code), v.mid)) for (r, mid), v in rm.items())
+    except (AttributeError, TypeError, ValueError):
+        recent = sorted(repr(x) for x in rm)      # another container than the dict this harness knows: only used to tell states apart
     piggy = sorted((r.sockaddr[:2], tok, mid) for (r, tok), (mid, h) in mm._piggyback_opportunities.items())
     k = (model, recent, piggy, w.loop.pending_timers(), sorted(((k, min(v, 3)) for k, v in st.calls.items()), key=repr), mm.message_id,
          sorted(st.acked), len(st.seps), sorted(mm._active_exchanges and [(r.sockaddr[:2], mid) for r, mid in mm._active_exchanges] or []))
